@@ -4,7 +4,7 @@ from .progfam import *
 
 def run(tier, seed):
     return run_prog_property(
-        "C12", ["params", "static"], tier, seed,
+        "C12", ["params", "static"], tier, seed, trace_fams=("params",),
         rule="MC_Params.tla: programs with 0..4 parameters (types u8,(u1,u2),Option<u2>,[u2;2],List<u1,4>,Either<u1,u2>,bool,u16) "
              "used in main, in a called function, in a never-called function and twice in main. parameters() must equal the "
              "param:: occurrences found by Analyze; argument maps exact / extra / empty / each missing / each re-typed must be "
